@@ -33,6 +33,14 @@ GCase == [spec |-> spec, setting |-> S, sid |-> set, pt |-> pt, theta |-> ThetaJ
           aux_data |-> LET ao == AuxOrder(cfg) IN [q \in 1..Len(ao) |-> [name |-> ao[q],
                          vals |-> LET off == SumNat([r \in 1..(q - 1) |-> cfg.psize[ao[r]]])
                                   IN [i \in 1..cfg.psize[ao[q]] |-> AuxData(spec, cfg)[off + i]]]],
-          dlambda |-> Grad]
+          dlambda |-> Grad,
+          \* symbolic lane: the same point with every normsys alpha non-integer (only where a normsys exists)
+          dsym |-> IF \E q \in 1..Len(cfg.modifiers) : cfg.modifiers[q][2] = NORMSYS
+                   THEN LET th == SymTheta(cfg, PointRow(spec, cfg, pt)) IN
+                        << [theta |-> [q \in 1..Len(cfg.parOrder) |-> [name |-> cfg.parOrder[q], vals |-> th[cfg.parOrder[q]]]],
+                            rates |-> [i \in 1..Len(cfg.channels) |-> DefChannelSym(spec, S, th, cfg.channels[i])],
+                            dlambda |-> [q \in 1..Len(cfg.parOrder) |-> [name |-> cfg.parOrder[q],
+                                           comps |-> [i \in 1..cfg.psize[cfg.parOrder[q]] |-> DLambdaSym(spec, cfg, S, th, cfg.parOrder[q], i)]]]] >>
+                   ELSE <<>>]
 GEmit == (EmitCases /\ GradCaseOK /\ SpecHash % EmitMod = EmitRes) => PrintT(ToJson(GCase))
 =============================================================================
